@@ -12,7 +12,7 @@ from ..monitors import V, View, mon_c02, mon_c03
 from ..spaces import prog_of, shard_iter
 
 ID = "C18"
-BUDGET = {"quick": 100, "thorough": 600}
+BUDGET = {"quick": 240, "thorough": 600}
 
 
 def make_prog(n, es, with_param: bool, none_node=None, kinds=None) -> GProg:
